@@ -418,6 +418,15 @@ func (c *compiler) IndexNode(node *ast.IndexNode) {
 
 func (c *compiler) SliceNode(node *ast.SliceNode) {
 	c.compile(node.Node)
+	if node.From != nil && node.To != nil {
+		// Evaluate the bounds in source order (from, then to) and swap
+		// them into the order OpSlice pops them in.
+		c.compile(node.From)
+		c.compile(node.To)
+		c.emit(OpRot)
+		c.emit(OpSlice)
+		return
+	}
 	if node.To != nil {
 		c.compile(node.To)
 	} else {
